@@ -85,8 +85,10 @@ BOUNDS = dict(leading="core: all choices of 0..3 leading statements among %d (do
 STUBS = []
 ASSUMPTIONS = ["module skeleton is a solver-branched selector over a menu (enumerative residue); only positions are value variables",
                "combinations the Python grammar forbids (e.g. a __future__ import after another statement) are skipped: ast.parse / compile of the *untransformed* module must succeed",
-               "the stdlib/site-packages corpus run named by the property is not attempted (not this family of technique)"]
-REQUIRED_LABELS = {"import-placement", "decorators", "untouched", "positions", "compiles", "future-flags", "docstring", "loader-decoding"}
+               "the stdlib/site-packages corpus run named by the property is not attempted (not this family of technique)",
+               "an added decorator must carry the line of its own def/class (column not compared); co_firstlineno is compared for function code objects only -- "
+               "the body code object of an already decorated class starts at the `class` line instead of its first decorator's line (not reachable once the class exists)"]
+REQUIRED_LABELS = {"import-placement", "decorators", "untouched", "positions", "compiles", "future-flags", "docstring", "loader-decoding", "firstlineno"}
 REQUIRED_WITNESS = {"has-def", "has-class", "has-async", "no-defs", "empty-docstring"}
 BUDGET_S = {"quick": 120, "thorough": 900}
 POS = ("lineno", "col_offset", "end_lineno", "end_col_offset")
@@ -228,6 +230,7 @@ def scenario(inst, V):
     ok_decos = True
     why = ""
     expected_hash = tc.get_hash()
+    added = []
     for node, fields, pos in snap:
         for f, old in fields.items():
             new = getattr(node, f, None)
@@ -238,10 +241,14 @@ def scenario(inst, V):
                         ok_decos, why = False, f"FunctionDef {node.name}: decorator must be appended last"
                     elif expected_hash not in ast.unparse(new[-1]):
                         ok_decos, why = False, "decorator does not refer to this hook's typechecker"
+                    else:
+                        added.append((node, new[-1], pos))
                     continue
                 if f == "decorator_list" and isinstance(node, ast.ClassDef):
                     if not (len(new) == len(old) + 1 and all(a is b for a, b in zip(new[1:], old)) and is_added_decorator(new[0])):
                         ok_decos, why = False, f"ClassDef {node.name}: decorator must be inserted first"
+                    else:
+                        added.append((node, new[0], pos))
                     continue
                 if f == "body" and isinstance(node, ast.Module):
                     new = [s for s in new if not (is_added_import(s) and all(s is not n for n, _, _ in snap))]
@@ -258,6 +265,15 @@ def scenario(inst, V):
                 ok_fields, why = False, f"{type(node).__name__}.{a} dropped"
             else:
                 pos_conds.append(core.lift(nv) == core.lift(v))
+    # an added decorator sits on the line of its own def / class (it decides co_firstlineno of an
+    # otherwise undecorated function) and is a node of its own
+    for node, deco, pos in added:
+        if getattr(deco, "lineno", None) is None or pos.get("lineno") is None:
+            ok_decos, why = False, f"{node.name}: added decorator without a line number"
+        else:
+            pos_conds.append(core.lift(deco.lineno) == core.lift(pos["lineno"]))
+    if len({id(d) for _, d, _ in added}) != len(added):
+        ok_decos, why = False, "one decorator node shared between several definitions"
     V.check("decorators", ok_decos, why=why)
     V.check("untouched", ok_fields, why=why)
     V.check("positions", z3.And(*pos_conds) if pos_conds else True)
@@ -282,9 +298,22 @@ def scenario(inst, V):
     if compiled:
         FUT = 0x1000000 | 0x20000  # CO_FUTURE_ANNOTATIONS | CO_FUTURE_DIVISION
         V.check("future-flags", (code.co_flags & FUT) == (plain_code.co_flags & FUT))
+        V.check("firstlineno", _fn_lines(code) == _fn_lines(plain_code), hooked=_fn_lines(code), plain=_fn_lines(plain_code))
         doc_new = ast.get_docstring(tree, clean=False)
         V.check("docstring", doc_new == ast.get_docstring(ast.parse(src), clean=False), got=repr(doc_new))
     return dict(src=src, compiled=compiled, imports=imports)
+
+
+def _fn_lines(code, out=None):
+    """(name, first line) of every function-like code object, in order (class bodies are skipped:
+    their code object is not reachable once the class exists)"""
+    out = [] if out is None else out
+    for c in code.co_consts:
+        if hasattr(c, "co_firstlineno"):
+            if c.co_flags & 0x1:
+                out.append((c.co_name, c.co_firstlineno))
+            _fn_lines(c, out)
+    return out
 
 
 def _key(inst, label, vals, info):
